@@ -51,6 +51,12 @@ def run(tier):
         # sub-expression context copies must come back with the position it had)
         for extra in ('([[7], [8, 9]] elem)', '(["a", [1], 2] elem)', '([[7], [8]] elem (1, "b"))', '("xy" elem [3] swap)'):
             bodies.append((extra, t))
+    # a name that holds a block is applied when it is read: as the whole body of a sub-expression context the
+    # block runs there, whatever it pops or replaces, and the surrounding stack stays as it was
+    for clo in ("{1 add}", "{add}", "{drop 8}", "{drop}", "{dup}", "{swap}", "{(1, 2)}", "{drop drop 5}", "{[|A B| A] 7}", "{add ?(3 ?lt)}"):
+        for e in ("F", "(F)", "F F", "G"):
+            bodies.append(("1 2 (3, 4) let F := %s; let G := {F};" % clo, e))
+            bodies.append(("[[7], [8, 9]] elem dup elem %s (|X F| let G := {F}; X @@)" % clo, e))
     cmds, meta = [], []
     cached = {}
     def add(q, group, kind, fileq=None):
@@ -65,13 +71,17 @@ def run(tier):
     for src, e in bodies:
         g = len(groups)
         groups.append((src, e, None))
-        add(src, g, "P")
-        add("%s ?(%s)" % (src, e), g, "pos")
-        add("%s !(%s)" % (src, e), g, "neg")
-        add("%s let X_ := %s;" % (src, e), g, "let")
-        add("%s [%s]" % (src, e), g, "cap")
-        add("%s ((%s) == (%s))" % (src, e, e), g, "infix-eq")
-        add("%s ((%s) != (%s))" % (src, e, e), g, "infix-ne")
+        def w(tail, src=src):          # `@@' in the prefix: where the rest goes (inside a scope the prefix opens)
+            return src.replace("@@", tail) if "@@" in src else (src + " " + tail).rstrip()
+        add(w(""), g, "P")
+        add(w("?(%s)" % e), g, "pos")
+        add(w("!(%s)" % e), g, "neg")
+        add(w("let X_ := %s;" % e), g, "let")
+        add(w("[%s]" % e), g, "cap")
+        add(w("((%s) == (%s))" % (e, e)), g, "infix-eq")
+        add(w("((%s) != (%s))" % (e, e)), g, "infix-ne")
+        if "let F" in src or "|X F|" in src:
+            add(w("(%s == %s)" % (e, e)), g, "infix-eq2")
     # 3. the same laws with DWARF vocabulary on real inputs
     tests = os.path.join(common.REPO, "tests")
     for f in DW_FILES:
@@ -163,7 +173,7 @@ def run(tier):
         elif pos.get("status") != neg.get("status"):
             # hard errors (e.g. empty stack) must hit both flavours alike
             vd.observe("assert " + key0, {"why": "status differs between ?(E) and !(E)", "pos": pos, "neg": neg})
-        for kind in ("infix-eq", "infix-ne"):
+        for kind in ("infix-eq", "infix-ne", "infix-eq2"):
             if kind not in d:
                 continue
             if kind in d and d[kind][1] and d[kind][1].get("status") == "ok":
